@@ -140,10 +140,12 @@ func LedgerEvents(t int, sc *Scenario, tr *Transcript) []LedgerEvent {
 	prevHold := Hold(prevState, base)
 	evs = append(evs, LedgerEvent{T: t, Ev: "Init", H: 0, Hold: prevHold, Bad: nz(prevState.Bad), Signed: []string{}, Guilty: []string{},
 		Eoa: eoaOf(prevHold, nil), Allow: map[string]int64{"OLT": 0}})
+	wo := witnessOrder(sc)
 	for _, b := range tr.Blocks {
 		if b.State == nil {
 			break
 		}
+		b.witnessOrder = wo
 		hold := Hold(b.State, base)
 		signed := map[string]bool{}
 		for _, tx := range b.Txs {
@@ -203,3 +205,21 @@ const (
 	FrozenByzantine   = 2 // evidence.BYZANTINE_FAULT
 	DelegationPoolKey = "00000000000000000001"
 )
+
+func witnessOrder(sc *Scenario) []string {
+	g := genesisCache(sc.Genesis)
+	type wa struct {
+		n string
+		a []byte
+	}
+	var ws []wa
+	for _, n := range sc.Genesis.Witnesses {
+		ws = append(ws, wa{n, g.Validators[n].Val.Addr})
+	}
+	sort.Slice(ws, func(i, j int) bool { return string(ws[i].a) < string(ws[j].a) })
+	var out []string
+	for _, w := range ws {
+		out = append(out, w.n)
+	}
+	return out
+}
